@@ -591,6 +591,23 @@ def cancelLiquidityStake (id : Hash) : Method Liquidity := fun s c =>
       else some ({ s with entries := put (c.sender, id) { e with revoke := c.now, amount := 0 } s.entries },
                  [⟨c.sender, e.tok, e.amount, .none⟩])
 
+/-- UnlockLiquidityStakeEntries.ReceiveBlock — the ONE legitimate early release: the administrator (`isAdmin` = the
+    sender is LiquidityInfo.Administrator, an input) ends the lock of every still-locked entry of the token the call
+    carries; the entries stay, their owners cancel them as matured ones. -/
+def unlockEntry (c : Ctx) (e : LStakeE) : LStakeE :=
+  if e.tok = c.token ∧ e.expiration > c.now then { e with expiration := c.now } else e
+
+def unlockLiquidityStakeEntries (isAdmin : Bool) : Method Liquidity := fun s c =>
+  if c.amount ≠ 0 then none
+  else if !isAdmin then none
+  else some ({ s with entries := s.entries.map fun ke => (ke.1, unlockEntry c ke.2) }, [])
+
+/-- SetTokenTupleMethod.ReceiveBlock once its time challenge is over: the administrator replaces the token tuples -/
+def setLiquidityTuples (isAdmin : Bool) (ts : List (Tok × Nat)) : Method Liquidity := fun s c =>
+  if c.amount ≠ 0 then none
+  else if !isAdmin then none
+  else some ({ s with tuples := ts }, [])
+
 /-- computeLiquidityStakeRewardsForEpoch (the only effect on the entries): deletion of a cancelled entry -/
 def Liquidity.collect (s : Liquidity) (k : Addr × Hash) : Option Liquidity :=
   match lookup k s.entries with
